@@ -245,12 +245,16 @@ theorem mono_slot_step (W : World) (f : Nat) (ih : MonoAt W f) :
       · exact le_bindR (ih.list _ _ _) (fun _ _ => Le.refl _)
       · exact ih.list _ _ _
     · split
-      · exact Le.refl _
+      · split
+        · exact le_bindR (ih.list _ _ _) (fun _ _ => Le.refl _)
+        · exact ih.list _ _ _
       · split
         · exact ih.list _ _ _
         · exact Le.refl _
   · split
-    · exact Le.refl _
+    · split
+      · exact le_bindR (ih.list _ _ _) (fun _ _ => Le.refl _)
+      · exact ih.list _ _ _
     · split
       · exact ih.list _ _ _
       · exact Le.refl _
